@@ -9,12 +9,12 @@ PROP = dict(
         "witness reconstruction in ocaml/drv_c08.ml (tie order of sort.Slice): can only cause a false DIFF because the extracted model re-checks the witness (pick_sorted)",
         "uTP delivery (library): the large-content path is exercised over loopback, not proved",
     ],
-    rule="seeded generator. Responder, handler level: instance with an in-memory store; content held with sizes 0,1,2,100,1000,1173..1177,2047..2049,4096, not held, or store failure; routing table of 0..272 records (ids near the content id / in chosen buckets / random; sizes incl. 300-byte maximum records and sizes around the packing boundary); requester in or not in the table; askers on loopback/LAN/public/IPv6. Asker, handler level: CONTENT responses: empty, one byte, wrong code, bad selector, raw payloads 0..3000 bytes, connection ids of wrong length, ENR lists from a signing pool (valid, corrupted, repeated, garbage; truncated lists). Live: for the version pairs ({0,1},{0,1}), ({0},{0,1}), ({0,1},{0}), ({1},{0,1}) two real instances over loopback UDP, contents of 0,1,1174..1177,4096,60000 bytes (thorough: 300 kB, 1 MB) fetched by the real findContent (uTP for the large ones), all datagram sizes recorded; three lookups of content that is not held. One case = one line; non-trivial = the reply carries content or at least one record; distinct by sha1 of the line",
+    rule="seeded generator. Responder, handler level: instance with an in-memory store; content held with sizes 0,1,2,100,1000,1173..1177,2047..2049,4096, not held, or store failure; routing table of 0..272 records (ids near the content id / in chosen buckets / random; sizes incl. 300-byte maximum records and sizes around the packing boundary); requester in or not in the table; askers on loopback/LAN/public/IPv6. Asker, handler level: CONTENT responses: empty, one byte, wrong code, bad selector, raw payloads 0..3000 bytes, connection ids of wrong length, ENR lists from a signing pool (valid, corrupted, repeated, garbage; truncated lists). Handler level stream framing: encodeUtpContent / decodeUtpContent INCLUDING the version lookup, for own versions {0,1},{0},{1} and fresh peers whose record has no pv entry (legacy), an empty / malformed one, or the lists 0,1,01,10,2,12; bare, v1-framed and damaged frames. Live: for the version pairs ({0,1},{0,1}), ({0},{0,1}), ({0,1},{0}), ({1},{0,1}) and for legacy peers that advertise NO pv entry (asker without pv vs {0,1}; {0,1} vs responder without pv; both without; contents of 1176 and 4096 bytes) two real instances over loopback UDP, contents of 0,1,1174..1177,4096,60000 bytes (thorough: 300 kB, 1 MB) fetched by the real findContent (uTP for the large ones), all datagram sizes recorded; three lookups of content that is not held. One case = one line; non-trivial = the reply carries content or at least one record; distinct by sha1 of the line",
     nontrivial=lambda l: any(k in l for k in (" | raw ", " | connid ", " | ok ")) or (" | enrs " in l and not l.rstrip().endswith(" .")),
     modelled=["storage as found(bytes) / not found / error", "sort.Slice as any sorted permutation (ties in any order)",
               "the uTP connection id as an opaque 2-byte value; the stream as delivering exactly the encoded bytes (C15 round trip)",
               "SSZ decoding of Enrs taken from the implementation's decoder (C14's subject)",
-              "version negotiation (C19's subject): the live runs use both versions on either side; the model takes the version as given"],
+              "version negotiation: C19's model of getOrStoreHighestVersion (Model/Versions.v) is reused for the handler-level framing lines; the live runs use both versions on either side and legacy peers without a pv entry"],
     assumptions=["node ids are unique in the routing table (hypothesis NoDup of C08_not_held; the table guarantees it, C07)",
                  "request ids of at most 8 bytes", "toContentId is the default sha256 (32-byte content ids)",
                  "content shorter than 2^32 bytes for the stream round trip (C15's hypothesis)",
@@ -22,7 +22,7 @@ PROP = dict(
     timeout={"quick": 900, "thorough": 3000},
 )
 MANIFEST = dict(
-    level="Machine-checked proof (Coq 8.16, no axioms) over a Gallina model of handleFindContent / findNodesCloseToContent / truncateNodes and of processContent: every reply (inline bytes, connection id, records) gives a datagram <= maxPacketSize for request ids <= 8 bytes (against the regenerated K_maxPacketSize / K_talkRespOverhead; the threshold is proved to be exactly the room left); held content of at most the threshold is returned inline and the asker extracts exactly those bytes; larger content is announced by a 2-byte connection id and the stream encoding round-trips for either version (C15); content not held yields only table records, at most 32, in non-decreasing log distance, among the 32 nearest, never the asker (for unique table ids); both handlers are total (processContent under the probed length guard). PARTIAL: the multi-packet path (connection id + uTP stream) and version negotiation are exercised by live transfers between two real instances over loopback UDP for both versions on either side (bytes compared by hash, all datagrams <= 1280), not proved; packet loss / reordering is not injected.",
+    level="Machine-checked proof (Coq 8.16, no axioms) over a Gallina model of handleFindContent / findNodesCloseToContent / truncateNodes and of processContent: every reply (inline bytes, connection id, records) gives a datagram <= maxPacketSize for request ids <= 8 bytes (against the regenerated K_maxPacketSize / K_talkRespOverhead; the threshold is proved to be exactly the room left); held content of at most the threshold is returned inline and the asker extracts exactly those bytes; larger content is announced by a 2-byte connection id and the stream encoding round-trips for either version (C15); content not held yields only table records, at most 32, in non-decreasing log distance, among the 32 nearest, never the asker (for unique table ids); both handlers are total (processContent under the probed length guard); a legacy peer without a pv entry is served and read unframed by any node whose version list starts with 0. PARTIAL: the multi-packet path (connection id + uTP stream) and version negotiation are exercised by live transfers between two real instances over loopback UDP for both versions on either side (bytes compared by hash, all datagrams <= 1280), not proved; packet loss / reordering is not injected.",
     note="Trusted: Coq kernel, extraction + OCaml driver (witness reconstruction can only raise false alarms), Go harness and hooks, uTP library delivery. The one-byte-response panic of processContent (C01) is mirrored through a probed constant: the model follows whichever behaviour the compiled code has.",
     technique="Coq proof (size arithmetic, sortedness/permutation lemmas) + relational correspondence run + live transfers over loopback",
 )
